@@ -76,11 +76,18 @@ def stale_check_rule(A, rule, entries, resources, guards_of, modes=("th", "mp"))
                 continue
             rule.ob()
             rule.inst(f"{c.cls}: {site_func(ev)}: `{site_text(ev)[:70]}` guarded by {len(guards)} probe(s)")
-            ok = False
-            for g in guards:
-                for l in g[2]:
-                    if l in ev.held_must and key_matches(l, c):
-                        ok = True
+            def in_section(gs):
+                return any(l in ev.held_must and key_matches(l, c) for g in gs for l in g[2])
+
+            ok = in_section(guards)
+            # the guard of another class that decides the mutation (the reference list for an
+            # object) must itself be (re-)evaluated inside the section
+            other = [g for g in guards if g[0] != c.cls]
+            if ok and other and not in_section(other):
+                rule.fail(site_func(ev), site_text(ev),
+                          f"{c.cls} is modified on the strength of a {other[0][0]} check made before the claim on the same identifier was "
+                          "taken and not repeated inside it (the reference state can change between the check and the act)",
+                          site_loc(A, ev), {"resource": c.cls, "entry": ev.entry})
             if not ok:
                 rule.fail(site_func(ev), site_text(ev),
                           f"{c.cls} is modified on the strength of an existence/content check made outside any "
@@ -129,6 +136,27 @@ def check_C07(A: Analysis, tier):
                         rd.fail(ev.func, ev.node, f"{ev.prim} on the cid list is reachable without a preceding fcntl.flock",
                                 A.p.loc(ev.func, ev.node))
     rules.append(rd)
+
+    rg = Rule("C07", "C07.f", "a call releases only claims it took itself: no release is reached, on the normal path or on "
+              "a path carrying one of the package's own errors (a rejection), without the same claim being held", floor=6)
+    for m in ("th", "mp"):
+        for e in OBJ_ENTRIES + ["store_metadata", "delete_metadata"]:
+            it = A.api(e, m)
+            for r in it.lock_events:
+                if r["kind"] != "release":
+                    continue
+                rg.ob()
+                rg.inst(f"{r['func'].qual}:{r['op'].node.lineno} release {r['cls']}")
+                if r.get("held"):
+                    continue
+                labs = r.get("handling") or ()
+                own = [l for l in labs if l in A.p.exc_classes]
+                if not labs or (labs and labs[-1] in A.p.exc_classes):
+                    rg.fail(r["func"], r["op"].node, f"{showlock((r['cls'], r['key']))} is released on a path"
+                            + (f" that carries {labs[-1]}" if labs else "") + f" of {e} on which this call never took it: "
+                            "the claim removed belongs to another thread, whose exclusion is thereby lost", A.p.loc(r["func"], r["op"].node),
+                            {"entry": e, "handling": list(labs)})
+    rules.append(rg)
 
     re_ = Rule("C07", "C07.e", "an identifier claim waits, in a re-checking loop, on the key and list it then appends", floor=6)
     for op in A.lockops:
